@@ -53,6 +53,7 @@ class Spec:
         self.ignore_attrs = set(ignore_attrs)
         self.is_init = method == "__init__"
         self.guards = ()
+        self.attr_alias = {}
         self.unfold = unfold
         self.kinds = {py: kind for py, _, kind in self.rec}
 
@@ -78,7 +79,8 @@ class Spec:
     def expr(self, n, env):
         t = txt(n)
         if t in self.externals:
-            return self.externals[t]
+            v = self.externals[t]
+            return v(env) if callable(v) else v
         if isinstance(n, ast.Constant):
             if n.value is True:
                 return "true"
@@ -86,14 +88,17 @@ class Spec:
                 return "false"
             if isinstance(n.value, int):
                 return "%d" % n.value if n.value >= 0 else "(%d)" % n.value
+            if n.value is None:
+                return "None"
             raise Shape("constant %r" % (n.value,))
         if isinstance(n, ast.Name):
             if n.id in env.locs:
                 return env.locs[n.id]
             raise Shape("unknown name %s" % n.id)
         if isinstance(n, ast.Attribute) and isinstance(n.value, ast.Name) and n.value.id == "self":
-            if n.attr in env.fields:
-                return env.fields[n.attr]
+            a = self.attr_alias.get(n.attr, n.attr)
+            if a in env.fields:
+                return env.fields[a]
             raise Shape("unknown attribute self.%s" % n.attr)
         if isinstance(n, ast.BinOp) and isinstance(n.op, (ast.Add, ast.Sub, ast.Mult)):
             op = {ast.Add: "+", ast.Sub: "-", ast.Mult: "*"}[type(n.op)]
@@ -144,6 +149,9 @@ class Spec:
 
         def go(e):
             return self.run(rest, e, on_fall, on_ret, depth + 1)
+        sp = self.special(s, env, go)
+        if sp is not None:
+            return sp
         if isinstance(s, ast.Expr) and isinstance(s.value, ast.Constant) and isinstance(s.value.value, str):
             return go(env)
         if isinstance(s, ast.Pass):
@@ -161,8 +169,10 @@ class Spec:
                     return go(env)
                 e2.locs[tg.id] = self.value(s.value, env, None)
                 return go(e2)
-            if isinstance(tg, ast.Attribute) and isinstance(tg.value, ast.Name) and tg.value.id == "self" and tg.attr in self.kinds:
-                e2.fields[tg.attr] = self.value(s.value, env, self.kinds[tg.attr])
+            if isinstance(tg, ast.Attribute) and isinstance(tg.value, ast.Name) and tg.value.id == "self" \
+                    and self.attr_alias.get(tg.attr, tg.attr) in self.kinds:
+                a = self.attr_alias.get(tg.attr, tg.attr)
+                e2.fields[a] = self.value(s.value, env, self.kinds[a])
                 return go(e2)
             if isinstance(tg, ast.Attribute) and isinstance(tg.value, ast.Name) and tg.value.id == "self" and tg.attr in self.ignore_attrs:
                 return go(env)
@@ -192,13 +202,21 @@ class Spec:
                 return go(e2)
             if f.startswith("self.") and f[5:] in self.siblings:
                 callee = [x for x in self.find(f[5:]).body]
-                if c.args or c.keywords:
-                    # bind parameters positionally
-                    fn = self.find(f[5:])
-                    names = [a.arg for a in fn.args.args[1:]]
+                fn = self.find(f[5:])
+                names = [a.arg for a in fn.args.args[1:]]
+                if names:
+                    # bind parameters positionally / by keyword / to their defaults
                     e2 = env.copy()
-                    for nm, a in zip(names, c.args):
-                        e2.locs[nm] = self.expr(a, env)
+                    dflt = dict(zip(names[len(names) - len(fn.args.defaults):], fn.args.defaults))
+                    given = dict(zip(names, c.args))
+                    given.update({k.arg: k.value for k in c.keywords})
+                    for nm in names:
+                        if nm in given:
+                            e2.locs[nm] = self.expr(given[nm], env)
+                        elif nm in dflt:
+                            e2.locs[nm] = self.expr(dflt[nm], env)
+                        else:
+                            raise Shape("argument %s of %s is missing" % (nm, f))
                     env = e2
                 return self.run(callee, env, lambda e: go(e), lambda e, v: go(e), depth + 1)
             if f.startswith(self.ignore):
@@ -218,6 +236,13 @@ class Spec:
         if isinstance(s, ast.For) and all(self.is_log_only(x) for x in s.body):
             return go(env)
         raise Shape("statement not recognised (line %d): %s" % (getattr(s, "lineno", 0), txt(s)[:70]))
+
+    def special(self, s, env, go):
+        """family-specific statement forms (overridden by subclasses); None = not handled here"""
+        return None
+
+    def state_term(self, env):
+        return "(%s %s)" % (self.ctor, " ".join(paren(env.fields[py]) for py, _, _ in self.rec))
 
     def is_log_only(self, s):
         if isinstance(s, ast.Assign) and all(isinstance(t, ast.Name) and t.id in self.ignore_locals for t in s.targets):
